@@ -101,6 +101,48 @@ WellFormed(L, U, m, n, ilu, IsZeroVal(_)) ==
   ELSE "ok"
 
 (***************************************************************************)
+(* Symbolic factorization: the structure the storage must have.            *)
+(* SuperLU never drops a numerically zero entry, so the stored structure is *)
+(* determined by the pattern of Pr*A*Pc and the supernode partition alone:  *)
+(* column j of the filled matrix is the set reached from the nonzero rows   *)
+(* of (Pr*A*Pc)(:,j) by sweeping the earlier columns k = 0 .. j-1 in order  *)
+(* and adding column k of L whenever row k has been reached.  Columns of a  *)
+(* supernode share one row list (dense block, explicit zeros in relaxed     *)
+(* supernodes), and U keeps, per earlier supernode it touches, the full     *)
+(* segment from the first reached row to the supernode's last row.          *)
+(* LC(k) = rows >= k of column k as stored.  MC_Symb checks that the sweep  *)
+(* is the fill of Boolean Gaussian elimination.                             *)
+(***************************************************************************)
+RECURSIVE SymbSweep(_, _, _, _)
+SymbSweep(LC(_), x, k, j) == IF k >= j THEN x ELSE SymbSweep(LC, IF k \in x THEN x \cup LC(k) ELSE x, k + 1, j)
+SymbReach(LC(_), x, j) == SymbSweep(LC, x, 0, j)
+
+SnodeRowSet(L, s) == {At(L.rowind, P0(L, s) + k) : k \in 0..(NSupR(L, s) - 1)}
+StoredLCol(L, k) == {r \in SnodeRowSet(L, At(L.col_to_sup, k)) : r >= k}
+\* PA(j) = set of (final) row positions of the nonzeros of column j of Pr*A*Pc
+SymbColumn(L, PA(_), j) == SymbReach(LAMBDA k : StoredLCol(L, k), PA(j), j)
+LStructureSymbolic(L, PA(_)) ==
+  \A s \in 0..L.nsuper :
+     SnodeRowSet(L, s) = (First(L, s)..(Last1(L, s) - 1)) \cup UNION {{r \in SymbColumn(L, PA, j) : r >= j} : j \in First(L, s)..(Last1(L, s) - 1)}
+UStoredRows(U, j) == {At(U.rowind, q) : q \in At(U.colptr, j)..(At(U.colptr, j + 1) - 1)}
+\* Per earlier supernode s: nothing is stored if no row of s is reached; otherwise one dense segment that ends at the
+\* supernode's last row and starts at or above the first reached row (the depth-first search of the code lowers the
+\* start to an earlier column of s when it walks through the supernode's own row list; those extra rows hold zeros).
+SetMin(S) == CHOOSE r \in S : \A r2 \in S : r <= r2
+USegmentsOK(L, stored, reached, j) ==
+  \A s \in {t \in 0..L.nsuper : Last1(L, t) <= First(L, At(L.col_to_sup, j))} :
+     LET hit == {r \in reached : r >= First(L, s) /\ r < Last1(L, s)}
+         st == {r \in stored : r >= First(L, s) /\ r < Last1(L, s)}
+     IN IF hit = {} THEN st = {}
+        ELSE st # {} /\ st = SetMin(st)..(Last1(L, s) - 1) /\ SetMin(st) <= SetMin(hit)
+UStructureSymbolic(L, U, n, PA(_)) ==
+  \A j \in 0..(n - 1) : USegmentsOK(L, UStoredRows(U, j), SymbColumn(L, PA, j), j)
+\* entries of U outside the reached set are explicit zeros
+UUnreachedZero(L, U, n, PA(_), IsZeroVal(_)) ==
+  \A j \in 0..(n - 1) : LET reached == SymbColumn(L, PA, j) IN
+     \A q \in At(U.colptr, j)..(At(U.colptr, j + 1) - 1) : At(U.rowind, q) \notin reached => IsZeroVal(At(U.nzval, q))
+
+(***************************************************************************)
 (* Abstraction functions (defined on well-formed storage).                  *)
 (* Raw(L,U): (i,j) |-> position information; the numeric modules map the    *)
 (* logged value tokens through their own decoder V(_).                      *)
